@@ -1,5 +1,5 @@
 """C07 — documents are independent of each other, sequentially and concurrently (spec module Iso)."""
-import json, os, re, sys
+import concurrent.futures, json, os, re, shutil, subprocess, sys, time
 
 import vlib
 from vlib import Machinery, log
@@ -58,11 +58,12 @@ def model_check(ctx):
     n = 2
     ctx.tlc_mc("Iso_MC.tla", ctx.cfg("mc_intended.cfg", "SpecMC", consts(2, ops, n, 0),
                                       invariants=["Inv_Iso", "Inv_NoForeign", "Inv_UniqueIds"], properties=["Act_Iso"]))
-    # as built, call granularity: ids stay unique, but independence fails
-    ctx.tlc_mc("Iso_MC.tla", ctx.cfg("mc_built_ids.cfg", "SpecBuiltSeq", consts(2, ops, n, 0), invariants=["Inv_UniqueIds"]))
     st = {}
-    st["sequential leak (Inv_Iso)"] = expect_violation(
-        ctx, ctx.cfg("mc_built_inv.cfg", "SpecBuiltSeq", consts(2, ops, n, 0), invariants=["Inv_Iso"]), "Inv_Iso")
+    if not q:
+        # as built, call granularity: ids stay unique, but independence fails
+        ctx.tlc_mc("Iso_MC.tla", ctx.cfg("mc_built_ids.cfg", "SpecBuiltSeq", consts(2, ops, n, 0), invariants=["Inv_UniqueIds"]))
+        st["sequential leak (Inv_Iso)"] = expect_violation(
+            ctx, ctx.cfg("mc_built_inv.cfg", "SpecBuiltSeq", consts(2, ops, n, 0), invariants=["Inv_Iso"]), "Inv_Iso")
     st["sequential leak (Act_Iso)"] = expect_violation(
         ctx, ctx.cfg("mc_built_act.cfg", "SpecBuiltSeq", consts(2, ops, n, 0), properties=["Act_Iso"]), "Act_Iso")
     st["duplicate id under interleaving (Inv_UniqueIds)"] = expect_violation(
@@ -78,20 +79,59 @@ def with_mode(cases, mode, **kw):
     return cases
 
 
-def judge(ctx, obs, tag, chunk=60000):
-    """Judge an observation file, in chunks cut at case boundaries (keeps TLC's memory bounded)."""
+def _judge_chunk(ctx, path, idx, tag):
+    """One TLC run of the trace judge on one chunk (own metadir, bounded heap)."""
+    meta = os.path.join(ctx.work, "jmeta-%s-%d" % (tag, idx))
+    env = dict(os.environ, WZ_OBS=path, JAVA_TOOL_OPTIONS="-Xss256m -Xmx4g")
+    cmd = ["tlc", "-metadir", meta, "-config", "Iso_Trace.cfg", "-workers", "1", "Iso_Trace.tla"]
+    try:
+        r = subprocess.run(cmd, cwd=ctx.specdir, env=env, capture_output=True, text=True, timeout=3000)
+    except subprocess.TimeoutExpired:
+        subprocess.run(["pkill", "-f", meta])
+        raise Machinery("trace judge timed out on %s" % path)
+    finally:
+        shutil.rmtree(meta, ignore_errors=True)
+    out = r.stdout + r.stderr
+    n = sum(1 for _ in open(path))
+    m = re.search(r'^<<"WZDONE", (\d+), (".*")>>$', out, re.M)
+    if not m:
+        raise Machinery("trace judge Iso_Trace did not finish on %s:\n%s" % (path, vlib.tail(out, 60)))
+    if int(m.group(1)) != n:
+        raise Machinery("trace judge Iso_Trace consumed %s of %d events" % (m.group(1), n))
+    g = re.search(r"(\d+) states generated, (\d+) distinct states found", out)
+    return json.loads(json.loads(m.group(2))), (int(g.group(1)), int(g.group(2))) if g else (0, 0)
+
+
+def judge(ctx, obs, tag, chunk=25000, par=6):
+    """Judge an observation file with Iso_Trace.tla, in chunks cut at case boundaries, several TLC processes at a time."""
+    t0 = time.time()
     lines = open(obs).readlines()
-    i, part = 0, 0
+    paths, i = [], 0
     while i < len(lines):
         j = min(len(lines), i + chunk)
         while j < len(lines) and '"ev":"reset"' not in lines[j]:
             j += 1
-        p = "%s.part%d" % (obs, part)
+        p = "%s.part%d" % (obs, len(paths))
         with open(p, "w") as f:
             f.writelines(lines[i:j])
-        ctx.tlc_trace("Iso_Trace.tla", "Iso_Trace.cfg", p, tag)
+        paths.append(p)
+        i = j
+    with concurrent.futures.ThreadPoolExecutor(max_workers=par) as ex:
+        res = list(ex.map(lambda a: _judge_chunk(ctx, a[1], a[0], tag), enumerate(paths)))
+    seen = set()
+    for wit, (gen, dist) in res:
+        ctx.states += dist
+        ctx.transitions += gen
+        for w in wit:
+            sig = tuple(str(x) for x in w["sig"])
+            if sig in seen:
+                continue
+            seen.add(sig)
+            ctx.witnesses.append({"sig": list(sig), "case": w["case"], "tag": tag})
+    for p in paths:
         os.remove(p)
-        i, part = j, part + 1
+    log("  judge %s: %d events in %d chunk(s), %d distinct witness signatures, %.1fs"
+        % (tag, len(lines), len(paths), len(seen), time.time() - t0))
     note_obs(ctx, lines)
 
 
@@ -116,13 +156,73 @@ def model_diag(ctx):
     ctx.extra_cov["model_conformance_mismatches"] = [list(x) for x in md]
 
 
+def gen(ctx, name, spec, emit, ndocs, ops, maxlen, total, tag, **kw):
+    return ctx.tlc_gen("Iso_MC.tla", ctx.cfg(name, spec, consts(ndocs, ops, maxlen, total), invariants=[emit]), tag, **kw)
+
+
+def execute(ctx, cases, tag, mode, **kw):
+    """Run cases in the given mode and judge them."""
+    t0 = time.time()
+    if mode == "race":
+        if not getattr(ctx, "wzh_race", None):
+            ctx.wzh_race = ctx.build_harness(race=True)
+        obs = ctx.run_exec("isorace", with_mode(cases, "race", **kw), tag, binary=ctx.wzh_race,
+                           shards=min(vlib.NCPU, max(1, len(cases) // 4)))
+    else:
+        obs = ctx.run_exec("iso", with_mode(cases, mode), tag)
+    log("  exec %s took %.1fs (incl. build)" % (tag, time.time() - t0))
+    judge(ctx, obs, tag)
+
+
 def run(ctx):
     q = ctx.tier == "quick"
-    model_check(ctx)
-    # (1) every call-level interleaving, one goroutine
-    seq = ctx.tlc_gen("Iso_MC.tla", ctx.cfg("gen_seq.cfg", "SpecGen", consts(2, CORE, 3, 3 if q else 4), invariants=["Emit"]), "seq")
-    ctx.exhaustive = True
-    judge(ctx, ctx.run_exec("iso", with_mode(seq, "seq"), "seq"), "seq")
+    only = set(filter(None, os.environ.get("C07_ONLY", "").split(",")))   # development aid: run a subset of the stages
+
+    def on(stage):
+        return not only or stage in only
+
+    if on("mc"):
+        model_check(ctx)
+    if on("seq"):
+        # (1) every call-level interleaving of two documents, one goroutine
+        seq = gen(ctx, "gen_seq.cfg", "SpecGen", "Emit", 2, CORE, 3, 3 if q else 4, "seq")
+        ctx.exhaustive = True
+        execute(ctx, seq, "seq", "seq")
+        if not q:
+            full = gen(ctx, "gen_full.cfg", "SpecGen", "Emit", 2, FULL, 3, 3, "full")
+            execute(ctx, full, "full", "seq")
+    d = 8 if q else 10
+    if on("sim"):
+        # (2) seeded random longer schedules over three documents and the whole alphabet
+        sim = gen(ctx, "gen_sim.cfg", "SpecGen", "Emit", 3, FULL, 4, d, "sim", mode="sim", num=4 if q else 60, depth=d + 1,
+                  limit=250 if q else 4000)
+        execute(ctx, sim, "sim", "seq")
+    if on("gate"):
+        # (3) one goroutine per document, the schedule forced by a blocking gate at call granularity
+        gate = gen(ctx, "gen_gate.cfg", "SpecGen", "Emit", 2, CORE if q else FULL, 2, 2 if q else 3, "gate")
+        execute(ctx, gate, "gate", "go")
+    if on("sub"):
+        # (4) sub-step schedules in which the as-built model predicts a duplicate id, forced at the hook points
+        sub = gen(ctx, "gen_sub.cfg", "SpecGenSub", "EmitSub", 2, SUBOPS, 2, 2, "sub")
+        execute(ctx, sub, "sub", "go")
+        if not q:
+            sub3 = gen(ctx, "gen_sub3.cfg", "SpecGenSub", "EmitSub", 2, SUBOPS + ["RemoveFootnote"], 2, 3, "sub3",
+                       mode="sim", num=400, depth=16, limit=3000)
+            execute(ctx, sub3, "sub3", "go")
+    if on("race"):
+        # (5) the same programs free-running on one goroutine per document under the race detector
+        race = gen(ctx, "gen_race.cfg", "SpecGen", "Emit", 2, CORE if q else FULL, 1, 2, "race")
+        execute(ctx, race, "race", "race", rounds=4 if q else 12)
+        if not q:
+            race2 = gen(ctx, "gen_race2.cfg", "SpecGen", "Emit", 3, FULL, 3, 7, "race2", mode="sim", num=8, depth=8, limit=300)
+            execute(ctx, race2, "race2", "race", rounds=6)
+    if not ctx.extra_cov.get("library_has_registry_hooks"):
+        ctx.assumptions.append("the library under test has no notes./numbering. hook points: sub-step schedules were executed "
+                               "at call granularity (each call ran at its 'begin' entry)")
+    ctx.assumptions.append("memory-level races are observed by the Go race detector on the executed programs only")
+    if only:
+        ctx.assumptions.append("C07_ONLY=%s: only these stages were run" % ",".join(sorted(only)))
+    ctx.extra_cov["bounds"] = dict(seq_depth=3 if q else 4, docs=2, sim_docs=3, sim_depth=d, alphabet_core=CORE, alphabet_full=FULL)
     model_diag(ctx)
     return ctx.finish(LEVEL, RULE)
 
@@ -131,6 +231,8 @@ def replay(ctx, rp):
     c = rp["case"]
     tag = rp.get("tag", "seq")
     ctx.cases_by_tag[tag] = {c["id"]: c}
-    judge(ctx, ctx.run_exec("iso", [c], tag), tag)
+    mode = (c.get("extra") or {}).get("mode", "seq")
+    kw = {k: v for k, v in (c.get("extra") or {}).items() if k != "mode"}
+    execute(ctx, [c], tag, mode, **kw)
     model_diag(ctx)
     return ctx.finish(LEVEL, RULE)
